@@ -81,18 +81,21 @@ def register(reg):
 
     def setup_drw(I, env):
         eng = I.eng
-        ws = [eng.fresh_real(f"w{i}") for i in range(N)]
+        # weights may be given as floats or as integers (the code may not treat the two kinds differently)
+        ints = eng.choose(2, "weights: real numbers / integers") == 1
+        ws = [(eng.fresh_int if ints else eng.fresh_real)(f"w{i}") for i in range(N)]
         for w in ws:
             eng.assume(compare(">=", w, 0))
         eng.assume(compare(">", ws[0] + ws[1] + ws[2], 0))
         cum = (ws[0], ws[0] + ws[1], ws[0] + ws[1] + ws[2])
+        eng.input_syms.append(("weights_are_integers", C.Const(None), ints))
         lo = eng.fresh_int("low")
         self = env.vars["self"]
         self.fields.update(low=lo, high=lo + (N - 1), weights=tuple(ws), cumulativeWeights=cum, options=tuple(lo + i for i in range(N)))
         env.vars["value"] = identity_map(I)
         env.vars["_ws"], env.vars["_lo"] = ws, lo
         for i, w in enumerate(ws):
-            eng.input_syms.append((f"w{i}", C.Real(), w))
+            eng.input_syms.append((f"w{i}", C.Int() if ints else C.Real(), w))
 
     def post_drw(I, env, outcome):
         eng = I.eng
@@ -111,12 +114,63 @@ def register(reg):
             eng.check(f"{name}#rng.cumulative_weights_are_prefix_sums", sv_and(len(cum) == N, *[compare("==", cum[i], pref[i]) for i in range(min(N, len(cum)))]))
             eng.check(f"{name}#ensures.result_is_low_plus_drawn_index", compare("==", outcome[1], lo + idx))
 
+    def replay_drw(inputs, clause):
+        """Runs the real DiscreteRange.sampleGiven with the weights of the counter-model and records the library RNG calls."""
+        import random
+        from fractions import Fraction
+
+        import scenic.core.distributions as RD
+
+        ints = bool(inputs.get("weights_are_integers"))
+        try:
+            ws = [float(Fraction(str(inputs[f"w{i}"]))) for i in range(3)]
+        except Exception:
+            ws = [1.0, 2.0, 1.0]
+        if ints:
+            ws = [int(w) for w in ws]
+        if sum(ws) <= 0:
+            ws = [1, 2, 1] if ints else [1.0, 2.0, 1.0]
+        lo = int(inputs.get("low", 0))
+        d = RD.DiscreteRange(lo, lo + 2, weights=tuple(ws))
+        calls = []
+        saved = {}
+        for fn in ("choices", "randrange", "randint", "random", "uniform", "choice"):
+            saved[fn] = getattr(random, fn)
+
+            def wrap(*a, _fn=fn, **k):
+                r = saved[_fn](*a, **k)
+                calls.append((_fn, a, k, r))
+                return r
+
+            setattr(random, fn, wrap)
+        try:
+            random.seed(0)
+            got = d.sampleGiven({})
+        finally:
+            for fn, f in saved.items():
+                setattr(random, fn, f)
+        top = [c for c in calls if c[0] != "random" or len(calls) == 1]  # random.choices itself calls random()
+        names = [c[0] for c in calls]
+        if "choices" not in names or any(n in ("randrange", "randint", "uniform", "choice") for n in names):
+            return f"DiscreteRange({lo}, {lo + 2}, weights={tuple(ws)}).sampleGiven drew with {names} instead of one random.choices over the options with the cumulative weights (result {got})"
+        c = [c for c in calls if c[0] == "choices"]
+        if len(c) != 1:
+            return f"DiscreteRange weighted sampleGiven called random.choices {len(c)} times"
+        pop = list(c[0][1][0]) if c[0][1] else list(c[0][2].get("population", []))
+        cum = list(c[0][2].get("cum_weights") or [])
+        if pop != [lo, lo + 1, lo + 2] or cum != [ws[0], ws[0] + ws[1], ws[0] + ws[1] + ws[2]]:
+            return f"DiscreteRange({lo}, {lo + 2}, weights={tuple(ws)}): random.choices called with population {pop} and cum_weights {cum}"
+        if got != c[0][3][0]:
+            return f"DiscreteRange weighted sampleGiven returned {got} but random.choices drew {c[0][3][0]}"
+        return None
+
     reg.add(
         C.Contract(
             f"{D}:DiscreteRange.sampleGiven",
             params=dict(self=C.Obj(f"{D}:DiscreteRange", emptyMessage=C.Const("empty")), value=C.Const(None)),
             setup=setup_drw,
             post=post_drw,
+            replay=replay_drw,
             bounded=True,
             note="bounded: 3 weights (symbolic values)",
             properties=("C01", "C19"),
@@ -138,11 +192,12 @@ def register_options(reg):
         form = eng.choose(2, "dict form?")
         env.vars["_items"], env.vars["_form"] = items, form
         if form == 0:
-            ws = [eng.fresh_real(f"w{i}") for i in range(N)]
+            ints = eng.choose(2, "weights: real numbers / integers") == 1
+            ws = [(eng.fresh_int if ints else eng.fresh_real)(f"w{i}") for i in range(N)]
             env.vars["_ws"] = ws
             env.vars["opts"] = PDict(list(zip(items, ws)))
             for i, w in enumerate(ws):
-                eng.input_syms.append((f"w{i}", C.Real(), w))
+                eng.input_syms.append((f"w{i}", C.Int() if ints else C.Real(), w))
         else:
             n = eng.choose(N + 1, "how many options?")
             env.vars["_items"] = items[:n]
